@@ -1,0 +1,24 @@
+//go:build verif
+// +build verif
+
+// Entry points to the ISSUING side of the sortition (SortitionManager.isProposer / isValidator) for the
+// verification harness under /verif (property C04, issuer stage).  Compiled only with -tags verif;
+// add-only: nothing here changes the behaviour of the package.
+
+package ucon
+
+import (
+	"math/big"
+
+	"github.com/youchainhq/go-youchain/params"
+)
+
+// VerifIsProposer is isProposer.
+func (sm *SortitionManager) VerifIsProposer(round *big.Int, roundIndex uint32) (bool, *StepView) {
+	return sm.isProposer(round, roundIndex)
+}
+
+// VerifIsValidator is isValidator.
+func (sm *SortitionManager) VerifIsValidator(round *big.Int, roundIndex uint32, step uint32, lbType params.LookBackType) (bool, *StepView) {
+	return sm.isValidator(round, roundIndex, step, lbType)
+}
